@@ -359,7 +359,24 @@ pub fn build_realfs_plan(rng: &mut Rng, seed: u64, c: &Corpus) -> SimPlan {
     let n = jobs.len();
     let keys = rng.bytes16();
     let reuse: Vec<bool> = (0..n).map(|_| rng.chance(1, 2)).collect();
-    SimPlan { faults: vec![vec![]; n], jobs, threads: vec![ThreadPlan { keys: keys_to_hex(&keys), jobs: (0..n).collect(), reuse, offsets: vec![] }], schedule: vec![], sched_seed: None, switch_16: 0, clock: vec![], lib_pass: false, all_formats: false, realfs: true }
+    SimPlan { faults: vec![vec![]; n], jobs, threads: vec![ThreadPlan { keys: keys_to_hex(&keys), jobs: (0..n).collect(), reuse, offsets: vec![] }], schedule: vec![], sched_seed: None, switch_16: 0, clock: vec![], lib_pass: false, all_formats: false, realfs: true, env: vec![] }
+}
+
+/// Environment variables a terminal, a CI system or a packaging script may
+/// set; the canonical environment has none of them.
+pub fn draw_env(rng: &mut Rng) -> Vec<(String, String)> {
+    let mut v = Vec::new();
+    if rng.chance(1, 2) {
+        return v;
+    }
+    for _ in 0..rng.range(1, 4) {
+        let k = *rng.pick(crate::plan::ENV_NAMES);
+        let val = *rng.pick(&["1", "0", "", "dumb", "xterm-256color", "40", "C", "en_US.UTF-8", "tr_TR.UTF-8", "UTC", "Asia/Tokyo", "/nonexistent", "-q", "315532800"]);
+        if !v.iter().any(|(x, _): &(String, String)| x == k) {
+            v.push((k.to_string(), val.to_string()));
+        }
+    }
+    v
 }
 
 pub fn build_plan(rng: &mut Rng, seed: u64, c: &Corpus) -> SimPlan {
@@ -435,7 +452,7 @@ pub fn build_plan(rng: &mut Rng, seed: u64, c: &Corpus) -> SimPlan {
             clock.push((at, sec, rng.below(1_000_000_000) as i64));
         }
     }
-    SimPlan { faults: vec![vec![]; jobs.len()], jobs, threads, schedule: vec![], sched_seed: Some(rng.next()), switch_16: *rng.pick(&[0, 2, 4, 8, 16]), clock, lib_pass: true, all_formats: true, realfs: false }
+    SimPlan { faults: vec![vec![]; jobs.len()], jobs, threads, schedule: vec![], sched_seed: Some(rng.next()), switch_16: *rng.pick(&[0, 2, 4, 8, 16]), clock, lib_pass: true, all_formats: true, realfs: false, env: draw_env(rng) }
 }
 
 pub fn check_plan(plan: &SimPlan, res: &PlanResult, refs: &BTreeMap<String, Record>) -> Vec<Violation> {
@@ -470,7 +487,7 @@ pub fn check_plan(plan: &SimPlan, res: &PlanResult, refs: &BTreeMap<String, Reco
             continue;
         }
         let off = plan.threads.get(jr.thread).and_then(|t| t.offsets.get(jr.pos)).copied().unwrap_or(0);
-        let env = format!("thread {} keys {} queue position {} reused-server {} handle-offset {} interleaved {} clock-script {}", jr.thread, plan.threads.get(jr.thread).map(|t| t.keys.as_str()).unwrap_or("?"), jr.pos, jr.reused_server, off, res.interleaved(i), !plan.clock.is_empty());
+        let env = format!("thread {} keys {} queue position {} reused-server {} handle-offset {} interleaved {} clock-script {} env {:?}", jr.thread, plan.threads.get(jr.thread).map(|t| t.keys.as_str()).unwrap_or("?"), jr.pos, jr.reused_server, off, res.interleaved(i), !plan.clock.is_empty(), plan.env);
         v.extend(compare(job, reference, &jr.record, &env));
     }
     v
@@ -565,6 +582,10 @@ pub fn run(ctx: &mut Ctx, c: &Corpus) -> Vec<Replay> {
             ctx.stats.inc("dim_clock");
             dims += 1;
         }
+        if !plan.env.is_empty() {
+            ctx.stats.inc("dim_env_vars");
+            dims += 1;
+        }
         if plan.threads.len() > 1 {
             ctx.stats.inc("dim_multi_thread");
         }
@@ -639,7 +660,7 @@ pub fn run_proc(ctx: &mut Ctx, c: &Corpus, verif: &str) -> Vec<Replay> {
     let mut rng = Rng::new(ctx.run_seed);
     let job = pool_job(ctx.seed, rng.below(POOL), c);
     let mut out = Vec::new();
-    let base_plan = ProcPlan { job: job.clone(), faults: vec![], keys: "00000000000000000000000000000000".to_string(), clock: None, scratch_tag: String::new() };
+    let base_plan = ProcPlan { job: job.clone(), faults: vec![], keys: "00000000000000000000000000000000".to_string(), clock: None, scratch_tag: String::new(), env: vec![] };
     let base = ctx.exec_proc(&base_plan, "C10", verif);
     if let Some(why) = &base.skipped {
         ctx.stats.inc(&format!("skipped:{}", why));
@@ -654,7 +675,8 @@ pub fn run_proc(ctx: &mut Ctx, c: &Corpus, verif: &str) -> Vec<Replay> {
         let keys = keys_to_hex(&rng.bytes16());
         let clock = if rng.chance(1, 2) { Some(*rng.pick(&[0i64, 2147483648, 4102444800, 253402300800])) } else { None };
         let tag = if rng.chance(1, 2) { format!("-{}", "x".repeat(rng.range(1, 40))) } else { String::new() };
-        let plan = ProcPlan { job: job.clone(), faults: vec![], keys: keys.clone(), clock, scratch_tag: tag.clone() };
+        let env_vars = draw_env(&mut rng);
+        let plan = ProcPlan { job: job.clone(), faults: vec![], keys: keys.clone(), clock, scratch_tag: tag.clone(), env: env_vars.clone() };
         let rec = ctx.exec_proc(&plan, "C10", verif);
         ctx.stats.inc("evaluations");
         ctx.stats.note("key_pairs", keys.clone());
@@ -662,7 +684,7 @@ pub fn run_proc(ctx: &mut Ctx, c: &Corpus, verif: &str) -> Vec<Replay> {
         if sens >= 2 {
             ctx.stats.note("nontrivial", format!("p:{}:{}", &jd[..16], &keys[..12]));
         }
-        let env = format!("fresh process, keys {}, clock {:?}, scratch suffix {:?}", keys, clock, tag);
+        let env = format!("fresh process, keys {}, clock {:?}, scratch suffix {:?}, environment {:?}", keys, clock, tag, env_vars);
         for v in compare_proc(&job, &base, &rec, &env) {
             out.push(proc_replay("C10", ctx.seed, ctx.run, v, plan.clone()));
         }
@@ -682,6 +704,7 @@ pub fn classify_proc(r: &Replay, verif: &str) -> Vec<Violation> {
     bp.keys = "00000000000000000000000000000000".to_string();
     bp.clock = None;
     bp.scratch_tag = String::new();
+    bp.env = vec![];
     let base = crate::procsim::run_proc(&bp, verif);
     let rec = crate::procsim::run_proc(plan, verif);
     compare_proc(&plan.job, &base, &rec, "replay")
